@@ -618,8 +618,8 @@ class InterpolatableFunction(ABC):
             validIndices = np.all(np.isfinite(fx), axis=1)
             fxValid = fx[validIndices]
         else:
-            ## fx is 1D array
-            validIndices = np.all(np.isfinite(fx))
+            ## fx is 1D array, check each point separately
+            validIndices = np.isfinite(fx)
             fxValid = np.ravel(fx[validIndices])
 
         xValid = np.ravel(x[validIndices])
